@@ -96,16 +96,21 @@ CLAIMS["C04"] = dict(
 
 CLAIMS["C19"] = dict(
     category="other",
-    text=("Decides: (D1) the sign chain of the warm start (rhs = slot-k Jacobian-vector product of p_old[k]-p_new[k], operator "
-          "+hessian_vec, CG result returned unnegated, every driver adds it) so the increment is -H^-1 J_p (p_new-p_old); "
-          "(D2) in all four load-step drivers objective.p = p dominates the solve and never precedes the warm start; (D3) "
-          "drivers enter with scaling*x0 (bounds scaled alike) and leave with invScaling*result; ScaledObjective and "
-          "BoundConstrainedObjective evaluate at invScaling*xBar, start at scaling*x0, store invScaling = 1/scaling, and the "
-          "scaled preconditioner is the congruence D^T K D initialised at the unscaled point; (D4) param_index_update table. "
-          "Accuracy of the CG solve and numerical equality of scaled/unscaled solutions are NOT decided. In every driver the warm-start increment and the preconditioner update are evaluated at the scaled start point that is handed to the solver."
-          ""),
+    text=("Decided on the values and effect traces of a symbolic interpretation of the load-stepping glue code (rules/C19_sym.py: exact rational "
+          "functions over structured atoms -- uninterpreted applications, linear-operator atoms that distribute over sums, inverse-operator atoms, a "
+          "non-commutative word algebra for D^T K D, sqrt atoms; heap objects with attribute stores and opaque-use events; every combination of "
+          "boolean options and every try/except path is run; loops are summarised by one abstract iteration plus havoc): (D1) the warm start "
+          "returns inv<H(x; p_old)>[J_k(x; p_old)[p_old_k - p_new_k]] for every parameter slot, so the increment is -H^-1 J_p (p_new - p_old) "
+          "(operator, right-hand side and returned value are blamed separately); (D2) in all four drivers the parameters are current when the "
+          "solver receives the objective and on return, and the warm start sees the old parameters; (D3) the start point is scaling*x0 plus "
+          "exactly what the warm start returned, warm start and preconditioner update are evaluated at the scaled point, bounds are scaled, the "
+          "exit is invScaling*(solver result); the scaled objective classes evaluate at invScaling*xBar, store invScaling = 1/scaling and the "
+          "scaled preconditioner is the congruence D^T K D (roles found by value, never by name); (D4) param_index_update per slot, and the "
+          "Objective's derivative closures and protocol methods, called after p was replaced, use the new p (a trace-time capture of self.p "
+          "inside a jitted closure shows up as a stale atom). Accuracy of the CG solve and numerical equality of scaled/unscaled solutions are "
+          "NOT decided. Values containing atoms the interpreter does not understand give UNDECIDED, never REFUTED."),
     design_ref="DESIGN.md section 4, C19",
-    technique="static analysis: sign-parity chain over reaching definitions, dominator ordering rules in four sibling drivers, algebraic normal forms for the diagonal change of variables")
+    technique="static analysis: symbolic interpretation with effect traces (heap snapshots at opaque uses), exact rational / linear-operator / matrix-word normal forms, path enumeration over options and exception paths")
 
 CLAIMS["C06"] = dict(
     category="other",
